@@ -285,7 +285,8 @@ class Machine:
                 v = [rng.choice(cm.ANGLE_GRID) for _ in range(cm.n_angles(self.dim))]
             else:
                 v = rng.choice(cm.opt_grid(m["cls"], self.dim)[p[4:]])
-            return {"op": "inplace_model", "param": p, "value": v}
+            return {"op": "inplace_model", "param": p, "value": v,
+                    "refresh": rng.choice(["noarg", "noarg", "values"])}
         if kind == "assign_model":
             if rng.random() < 0.3:
                 # an equal-valued but distinct model object (later changed through the reference)
@@ -763,7 +764,14 @@ class Machine:
                 self.ctx.probe("condition_arrays_mutated_after_set_condition")
         cond.update(new)
 
-    def _refresh(self):
+    def _refresh(self, style="noarg"):
+        if style == "values":
+            # equally valid refresh: hand the (unchanged) conditioning values over again
+            vals = np.array(self.spec["cond"]["val"], dtype=np.double)
+            for s in self.sides():
+                s.cs.krige.set_condition(cond_val=vals.copy())
+            self.ctx.probe("refresh_by_values")
+            return
         for s in self.sides():
             try:
                 s.cs.krige.set_condition()
@@ -792,7 +800,7 @@ class Machine:
             except ValueError as e:
                 raise Inapplicable("setter rejected: %s" % e)
         self.spec["model"] = read_model(getattr(self.sut, "model_ref", None) or self.sut.cs.model)
-        self._refresh()
+        self._refresh(op.get("refresh", "noarg"))
 
     def _op_assign_model(self, op):
         new = op["model"]
@@ -814,6 +822,8 @@ class Machine:
             raise Inapplicable("mean only for simple kriging")
         if what == "trend" and kr["kind"] == "Detrended" and val is None:
             raise Inapplicable("detrended needs trend")
+        if what == "trend" and val is not None and kr["normalizer"] == "LogNormal":
+            raise Inapplicable("LogNormal needs positive detrended data")
         if what == "normalizer" and val == "LogNormal":
             # LogNormal needs positive (detrended) data
             vals = np.array(self.spec["cond"]["val"])
